@@ -1,0 +1,36 @@
+//! Verification hooks (compiled only with `--cfg ohsl_verif`; see /verif/DESIGN.md).
+//!
+//! `std_shim` is `std` with `thread` and `sync` taken from the shuttle controlled scheduler, and
+//! `num_cpus::get()` returns a worker count chosen by the harness. A module opts in with
+//!
+//! ```ignore
+//! #[cfg(ohsl_verif)] use crate::verif_shim::std_shim as std;
+//! #[cfg(ohsl_verif)] use crate::verif_shim::num_cpus;
+//! ```
+//!
+//! which shadows `std::thread::*`, `std::sync::*` and `num_cpus::get()` for that module only.
+//! With the flag off this file is not part of the crate.
+
+pub mod std_shim {
+    pub use ::std::*;
+    pub mod thread {
+        pub use ::shuttle::thread::*;
+    }
+    pub mod sync {
+        pub use ::shuttle::sync::*;
+    }
+}
+
+static WORKERS: ::std::sync::atomic::AtomicUsize = ::std::sync::atomic::AtomicUsize::new(1);
+
+/// Set the value returned by the shadowed `num_cpus::get()`.
+pub fn set_workers( n: usize ) {
+    WORKERS.store( n, ::std::sync::atomic::Ordering::SeqCst );
+}
+
+pub mod num_cpus {
+    /// Worker count chosen by the harness (stands in for the CPU affinity of the process)
+    pub fn get() -> usize {
+        super::WORKERS.load( ::std::sync::atomic::Ordering::SeqCst )
+    }
+}
